@@ -1576,3 +1576,21 @@ M("n85", "neutral", [], "option_lookup as first match or default",
                 return self.get(section, option)
         return default''', '''        return next((self.get(section, option) for section, option in section_option_list
                      if self.has_option(section, option)), default)'''))
+
+M("c11n", "fire", ["C11"], "the handler that detaches a refused variant swallows the exception",
+  (CI, '''            variant.parent = old_parent
+            raise
+''', '''            variant.parent = old_parent
+'''))
+
+M("c12n", "fire", ["C12", "C13"], "the parsed epoch is thrown away: every canonical name gets epoch 0",
+  (RP, '''        nevra_dict["epoch"] = nevra_dict["epoch"] or 0''', '''        nevra_dict["epoch"] = nevra_dict["epoch"] and 0'''))
+
+M("c12o", "fire", ["C12"], "a documented RPM category misspelt in the table",
+  (RP, '''SUPPORTED_CATEGORIES = ["binary", "debug", "source"]''', '''SUPPORTED_CATEGORIES = ["binary", "debu", "source"]'''))
+
+M("c05o", "fire", ["C05"], "the 0.3 rpm manifest reader no longer reads the compose section",
+  (RP, '''    def deserialize_0_3(self, data):
+        self.compose.deserialize(data["payload"])
+''', '''    def deserialize_0_3(self, data):
+'''))
